@@ -354,9 +354,8 @@ func (m *mergeFields) mergeValues(left, right *resolve.Field) {
 		l.Fields = append(l.Fields, r.Fields...)
 	case *resolve.Array:
 		r := right.Value.(*resolve.Array)
-		if l.Item.NodeKind() == resolve.NodeKindObject {
-			lo := l.Item.(*resolve.Object)
-			ro := r.Item.(*resolve.Object)
+		// look through nested lists: for a field of type [[T]] the item objects are merged
+		if lo, ro := m.objectOf(l.Item), m.objectOf(r.Item); lo != nil && ro != nil {
 			lo.Fields = append(lo.Fields, ro.Fields...)
 		}
 	}
@@ -391,9 +390,7 @@ func (m *mergeFields) setParentTypeNames(field *resolve.Field, typeNames [][]byt
 			m.setParentTypeNames(object.Fields[i], typeNames, depth+1)
 		}
 	case resolve.NodeKindArray:
-		array := field.Value.(*resolve.Array)
-		if array.Item.NodeKind() == resolve.NodeKindObject {
-			object := array.Item.(*resolve.Object)
+		if object := m.objectOf(field.Value); object != nil {
 			for i := range object.Fields {
 				object.Fields[i].ParentOnTypeNames = append(object.Fields[i].ParentOnTypeNames, resolve.ParentOnTypeNames{
 					Depth: depth,
